@@ -180,11 +180,11 @@ fn probe<H: BuildHasher + Default + Clone>(a: &Args) {
         3 => { for k in keys.iter().rev() { ops.push(Op::Remove(*k)); } pops(&mut ops, &popb) }
         4 => { for (j, k) in keys.iter().enumerate() { ops.push(Op::ChangePriority(*k, if j % 2 == 0 { i64::MAX - j as i64 } else { i64::MIN + j as i64 })); } pops(&mut ops, &pop) }
         5 => { for j in 0..5 { ops.push(Op::Push((900_000 + j, 0, i64::MAX - j as i64))); } pops(&mut ops, &pop); pops(&mut ops, &pop) }
-        6 => { ops.push(Op::IterMut { forget: false, prog: (0..n).map(|j| (Call::F, W { prio: Some(j as i64 % 3), payload: None })).collect() }); pops(&mut ops, &pop) }
+        6 => { ops.push(Op::IterMut { forget: false, late: false, prog: (0..n).map(|j| (Call::F, W { prio: Some(j as i64 % 3), payload: None })).collect() }); pops(&mut ops, &pop) }
         7 => { ops.push(Op::RetainMut(keys.iter().map(|k| Row { key: *k, keep: k % 2 == 0, w: W { prio: Some(*k as i64 % 5), payload: None } }).collect())); pops(&mut ops, &pop) }
         8 => { for k in &keys { ops.push(Op::Push((*k, 0, (*k as i64 * 31) % 17))); } for k in &keys { ops.push(Op::Remove(*k)); } pops(&mut ops, &popb) }
         9 => { ops.push(Op::Drain { forget: false, calls: vec![Call::F, Call::B] }); for j in 0..3 { ops.push(Op::Push((j, 0, j as i64))); } pops(&mut ops, &pop) }
-        10 => { ops.push(Op::Append((0..5).map(|j| (800_000 + j, 0, j as i64)).collect())); pops(&mut ops, &pop) }
+        10 => { ops.push(Op::Append(0, (0..5).map(|j| (800_000 + j, 0, j as i64)).collect())); pops(&mut ops, &pop) }
         11 => { let xs: Vec<E> = (0..60).map(|j| (if j % 2 == 0 { 700_000 + j } else { keys.get(j as usize % keys.len().max(1)).copied().unwrap_or(1) }, 0, (j as i64 * 7) % 13)).collect(); ops.push(Op::Extend { lo: 60, hi: Some(60), xs }); pops(&mut ops, &popb); pops(&mut ops, &popb) }
         12 => { ops.push(if pq { Op::IntoSortedVec } else { Op::IntoDescVec }); ops.push(Op::IntoVec); ops.push(Op::Iter(vec![Call::F, Call::B, Call::L])); ops.push(Op::CloneSwap); pops(&mut ops, &pop) }
         _ => { ops.push(Op::Convert); let o2 = if pq { Op::PopMax } else { Op::Pop }; for _ in 0..n { ops.push(o2.clone()); } }
